@@ -329,6 +329,60 @@ def admission_groups(rng, n_groups, per_group):
     return groups
 
 
+def run_admission_web(suite, backend, groups):
+    """the same through web.start_client: one OK frame per EVENT; true with an empty reason iff admitted,
+    false with a non-empty reason otherwise"""
+    from . import c15
+    from nostr_relay.config import Config
+    scratch = env.Scratch()
+    try:
+        for vs, cases in groups:
+            async def go(vs=vs, cases=cases):
+                env.load_config(authentication={"enabled": False})
+                env.patch_clock()
+                env.patch_web_sleep()
+                st = await make_storage(backend, scratch, [DOTTED[n] for n in vs])
+                try:
+                    out = []
+                    for c in cases:
+                        for k, v in c["cfg"].items():
+                            if k == "service_pubkey":
+                                Config.service_privatekey = env.SECRETS[env.PUBS.index(v)] if v else ""
+                            else:
+                                setattr(Config, k, v)
+                        set_lists(c["allowed"], c["denied"])
+                        frames, closed = await c15.drive_raw(st, [["EVENT", c["event"]]], [c["now"]])
+                        out.append((frames, closed))
+                    return out
+                finally:
+                    await close_storage(st)
+            obs = env.run(go())
+            mouts = model_batch("c16.pipeline", cases)
+            for c, (frames, closed), mo in zip(cases, obs, mouts):
+                cc = {"backend": backend, "vs": c["vs"], "event_id": c["event"]["id"]}
+                suite.case(cc, nontrivial=True)
+                oks = [f for f in frames if f and f[0] == "OK"]
+                shape = (len(oks) == 1 and len(frames) == 1 and closed is None and len(oks[0]) == 4)
+                admitted = bool(shape and oks[0][2] is True)
+                suite.count("ok_true" if admitted else "ok_false")
+                if not shape:
+                    suite.disagree(cc, "exactly one OK frame", {"frames": frames, "closed": closed})
+                    continue
+                if admitted != (mo is None):
+                    suite.disagree(cc, mo, oks[0])
+                vd = model_batch("c16.holds", [dict(c, obs=None if admitted else "refused")])[0]
+                if vd != "ok":
+                    suite.violate(vd, {"kind": "admission-web", "backend": backend, "case": c}, "OK frame contradicts the documented bounds: " + vd,
+                                  observed=oks[0])
+                if admitted and (oks[0][1] != c["event"]["id"] or oks[0][3] != ""):
+                    suite.disagree(cc, ["OK", c["event"]["id"], True, ""], oks[0])
+                if not admitted and not (isinstance(oks[0][3], str) and oks[0][3]):
+                    suite.violate("refused-without-reason", {"kind": "admission-web", "backend": backend, "case": c},
+                                  "a refused EVENT was answered without a reason", observed=oks[0])
+    finally:
+        scratch.close()
+
+
 # ----------------------------------------------------------------------------- ListBuilder.run_once on real stores
 PTAG_SHAPES = None
 
@@ -696,6 +750,15 @@ def run(tier, seed):
         run_admission(s, backend, admission_groups(rng, 9 if tier == "quick" else 40, 14 if tier == "quick" else 40))
         suites.append(s)
 
+    sw = Suite("corr:admission-web")
+    sw.rule = ("EVENT frames through web.start_client (scripted websocket, virtual throttle sleeps) on both backends behind fixed and random "
+               "pipelines: exactly one OK frame per EVENT, true with the id and an empty reason iff the model admits, false with a "
+               "non-empty reason otherwise")
+    rng = rng_for(seed, "c16.web")
+    for backend in ("sql", "kv"):
+        run_admission_web(sw, backend, admission_groups(rng, 4 if tier == "quick" else 12, 10 if tier == "quick" else 30))
+    suites.append(sw)
+
     s3 = Suite("corr:lists")
     s3.rule = ("ListBuilder.run_once against real SQL and LMDB stores holding events whose p tags have every shape (upper case, 63/65 "
                "digits, non-hex, embedded blank, non-ASCII that lower-cases longer, full-width digits, duplicates, bare and long tags, "
@@ -739,6 +802,8 @@ def _replay(payload):
         run_pure(s, [("replay", c["case"])])
     elif kind == "admission":
         run_admission(s, c["backend"], [(c["case"]["vs"], [c["case"]])])
+    elif kind == "admission-web":
+        run_admission_web(s, c["backend"], [(c["case"]["vs"], [c["case"]])])
     elif kind == "refresh":
         run_refresh(s, [c["case"]])
     elif kind == "lists-real":
